@@ -62,6 +62,11 @@ func c08Gen(r *gen.R) WLCase {
 		w.Words = []string{"123", "語", "7", "-"}[:r.Range(1, 4)]
 	case 3: // twins plus a genuinely uncapitalisable neighbour
 		w.Words = []string{"polish", "Polish", "apple", "123"}
+	case 4: // several spellings sharing one capitalised twin, and exactly one uncapitalisable word
+		w.Words = r.ShuffleStrings([]string{"x-ray", "X-ray", "X-Ray", "apple", "pear", []string{"42", "Paris", "語"}[r.Intn(3)]})
+		if r.Bool() {
+			w.Words = append(w.Words, "o'neil", "O'neil", "O'Neil")
+		}
 	}
 	if r.Chance(1, 2) {
 		w.Scheme = []string{"random", "one"}[r.Intn(2)]
